@@ -1,4 +1,5 @@
 import Isotp
+import Isotp.Sock
 /-
   Line-protocol driver: reads one operation per line on stdin, executes it on the model,
   prints exactly one output line per input line. See harness/proto.md.
@@ -127,6 +128,7 @@ structure Drv where
   now    : Nat := 0
   emitted : Array Nat := #[]                      -- frames emitted so far per layer
   faults  : Array (Option (Bool × Nat)) := #[]   -- armed link fault per layer: (dup?, index)
+  sock    : Sock.Sock := {}
 
 /-- run an operation on layer i: sync clock, run, collect new events, route tx frames to the outbox -/
 def onLayer (d : Drv) (i : Nat) (f : State → State × String) : Drv × String :=
@@ -150,6 +152,68 @@ def onLayer (d : Drv) (i : Nat) (f : State → State × String) : Drv × String 
     let s := { s with log := [], exc := none }
     ({ d with layers := d.layers.set! i s, outbox := d.outbox.set! i out, now := s.now,
               emitted := d.emitted.set! i (n0 + txs.length) }, line)
+
+def showCall : Sock.Call → String
+  | .setopt lvl opt d => s!"so:{lvl}:{opt}:{hexOf d}"
+  | .bind r t => s!"bind:{r}:{t}"
+  | .close => "close"
+
+def sockLine (s0 s : Sock.Sock) (res : String) : String :=
+  let newCalls := (s.calls.take (s.calls.length - s0.calls.length)).reverse
+  s!"{";".intercalate (newCalls.map showCall)}|{res}|bound={b01 s.bound} closed={b01 s.closed}"
+
+def sockStep (s : Sock.Sock) (toks : List String) : Sock.Sock × String :=
+  match toks with
+  | "new" :: rest =>
+    let kv := parseKV rest
+    let n := fun k (d : Nat) => (kv.get k (toString d)).toNat?.getD d
+    let s1 : Sock.Sock := { k := {
+      opts := { flags := n "flags" 0, frameTxtime := n "ftt" 0, extAddress := n "ext" 0, txpad := n "txpad" 0xCC,
+                rxpad := n "rxpad" 0xCC, rxExtAddress := n "rxext" 0 },
+      fc := { bs := n "bs" 0, stmin := n "stmin" 0, wftmax := n "wft" 0 },
+      ll := { mtu := n "mtu" 16, txDl := n "txdl" 8, txFlags := n "txflags" 0 },
+      txStmin := n "txstmin" 0 } }
+    (s1, "ok")
+  | "set_opts" :: rest =>
+    let kv := parseKV rest
+    let g := fun k => parsePyVal (kv.get k "N")
+    match Sock.setOpts s { optflag := g "optflag", frameTxtime := g "frame_txtime", extAddress := g "ext_address",
+                           txpad := g "txpad", rxpad := g "rxpad", rxExtAddress := g "rx_ext_address", txStmin := g "tx_stmin" } with
+    | .error e => (s, sockLine s s s!"exc {e.name}")
+    | .ok (s1, o) => (s1, sockLine s s1 s!"ok {o.flags} {o.frameTxtime} {o.extAddress} {o.txpad} {o.rxpad} {o.rxExtAddress}")
+  | "set_fc_opts" :: rest =>
+    let kv := parseKV rest
+    let g := fun k => parsePyVal (kv.get k "N")
+    match Sock.setFcOpts s (g "bs") (g "stmin") (g "wftmax") with
+    | .error e => (s, sockLine s s s!"exc {e.name}")
+    | .ok (s1, o) => (s1, sockLine s s1 s!"ok {o.bs} {o.stmin} {o.wftmax}")
+  | "set_ll_opts" :: rest =>
+    let kv := parseKV rest
+    let g := fun k => parsePyVal (kv.get k "N")
+    match Sock.setLlOpts s (g "mtu") (g "tx_dl") (g "tx_flags") with
+    | .error e => (s, sockLine s s s!"exc {e.name}")
+    | .ok (s1, o) => (s1, sockLine s s1 s!"ok {o.mtu} {o.txDl} {o.txFlags}")
+  | ["get_opts"] =>
+    let o := Sock.parseOpts (Sock.layoutOpts s.k.opts)
+    (s, sockLine s s s!"ok {o.flags} {o.frameTxtime} {o.extAddress} {o.txpad} {o.rxpad} {o.rxExtAddress}")
+  | ["get_fc_opts"] =>
+    let o := Sock.parseFc (Sock.layoutFc s.k.fc)
+    (s, sockLine s s s!"ok {o.bs} {o.stmin} {o.wftmax}")
+  | ["get_ll_opts"] =>
+    let o := Sock.parseLl (Sock.layoutLl s.k.ll)
+    (s, sockLine s s s!"ok {o.mtu} {o.txDl} {o.txFlags}")
+  | "bind" :: rest =>
+    let kv := parseKV rest
+    match mkAddr kv with
+    | .error e => (s, sockLine s s s!"addr-exc {e.name}")
+    | .ok a =>
+      match Sock.bind s a (parseBool (kv.get "asym" "0")) with
+      | .error e => (s, sockLine s s s!"exc {e.name}")
+      | .ok s1 => (s1, sockLine s s1 "ok")
+  | ["send"] => (s, sockLine s s (match Sock.ioGuard s with | some e => s!"exc {e.name}" | none => "ok"))
+  | ["recv"] => (s, sockLine s s (match Sock.ioGuard s with | some e => s!"exc {e.name}" | none => "ok"))
+  | ["close"] => let s1 := Sock.close s; (s1, sockLine s s1 "ok")
+  | _ => (s, "bad-op")
 
 def parseTat (s : String) : Option Tat :=
   if s = "0" then some .physical else if s = "1" then some .functional else none
@@ -280,6 +344,9 @@ def step (d : Drv) (line : String) : Drv × String :=
       | some h => (d, b01 (h.isForMe { id := id, ext := parseBool ext, data := data }))
       | none => (d, "bad-addr")
     | _, _, _ => (d, "bad-op")
+  | "sock" :: rest =>
+    let (s1, out) := sockStep d.sock rest
+    ({ d with sock := s1 }, out)
   | "params" :: rest =>
     let kv := parseKV rest
     let g := fun k d => parsePyVal (kv.get k d)
